@@ -46,3 +46,155 @@ def register(ex):
     ex.probe("fjspJobFinCmp", "Cmp", ".eq",
              "fjsp/env.py:_transit_to_next_time  `td['next_op'] == end_op_per_job` (last operation of the job)",
              ex.cmp_probe(F, "FJSPEnv._transit_to_next_time", "td['next_op']", "end_op_per_job"))
+
+
+# ---- growth round: index expressions / reductions -------------------------------------------------
+def _fn(ex, rel, func):
+    tree = ex.parse(rel)
+    return ex.find_function(tree, func) if tree else None
+
+
+def binop_assign_probe(ex, rel, func, target, left, right, true_op, false_op):
+    """`target = left <op> right`: "true" if <op> is `true_op`, "false" if it is `false_op`, miss otherwise"""
+    import ast
+
+    L, R = left.replace('"', "'").replace(" ", ""), right.replace(" ", "")
+
+    def run():
+        fn = _fn(ex, rel, func)
+        if fn is None:
+            return None
+        hits = []
+        for n in ast.walk(fn):
+            if (isinstance(n, ast.Assign) and len(n.targets) == 1 and ex.norm(n.targets[0]) == target
+                    and isinstance(n.value, ast.BinOp) and ex.norm(n.value.left) == L and ex.norm(n.value.right) == R):
+                if isinstance(n.value.op, true_op):
+                    hits.append("true")
+                elif isinstance(n.value.op, false_op):
+                    hits.append("false")
+        return hits[0] if len(hits) == 1 else None
+
+    return run
+
+
+def reduction_probe(ex, rel, func, recv_prefix, true_attr, false_attr, through=()):
+    """the reduction method (`.min(…)` / `.max(…)`) applied to an expression starting with `recv_prefix`
+    (optionally through intermediate method calls such as `masked_fill`)"""
+    import ast
+
+    P = recv_prefix.replace('"', "'").replace(" ", "")
+
+    def run():
+        fn = _fn(ex, rel, func)
+        if fn is None:
+            return None
+        hits = []
+        for n in ast.walk(fn):
+            if isinstance(n, ast.Call) and isinstance(n.func, ast.Attribute) and n.func.attr in (true_attr, false_attr):
+                if ex.norm(n.func.value).startswith(P):
+                    hits.append("true" if n.func.attr == true_attr else "false")
+        return hits[0] if len(hits) == 1 else None
+
+    return run
+
+
+def masked_fill_probe(ex, rel, func, recv, mask):
+    """is `recv` reduced only after `.masked_fill(mask, …)`?  true / false (recv reduced directly) / miss"""
+    import ast
+
+    Rv, Mk = recv.replace('"', "'").replace(" ", ""), mask.replace('"', "'").replace(" ", "")
+
+    def run():
+        fn = _fn(ex, rel, func)
+        if fn is None:
+            return None
+        filled, direct = 0, 0
+        for n in ast.walk(fn):
+            if isinstance(n, ast.Call) and isinstance(n.func, ast.Attribute):
+                if n.func.attr == "masked_fill" and ex.norm(n.func.value) == Rv and n.args and ex.norm(n.args[0]) == Mk:
+                    filled += 1
+                if n.func.attr in ("max", "min") and ex.norm(n.func.value) == Rv:
+                    direct += 1
+        if filled == 1 and direct == 0:
+            return "true"
+        if filled == 0 and direct == 1:
+            return "false"
+        return None
+
+    return run
+
+
+def module_const_probe(ex, rel, name):
+    """integral module-level constant `NAME = <number>` (possibly negative / written as a float)"""
+    import ast
+
+    def run():
+        tree = ex.parse(rel)
+        if tree is None:
+            return None
+        for n in tree.body:
+            if isinstance(n, ast.Assign) and len(n.targets) == 1 and ex.norm(n.targets[0]) == name:
+                try:
+                    v = ast.literal_eval(n.value)
+                except Exception:
+                    return None
+                if isinstance(v, (int, float)) and float(v) == int(v):
+                    return str(int(v)) if int(v) >= 0 else f"({int(v)})"
+        return None
+
+    return run
+
+
+def inplace_shift_probe(ex, rel, func, recv):
+    """`recv.subtract_(k)` → k, `recv.add_(k)` → −k (integral literal k)"""
+    import ast
+
+    R = recv.replace('"', "'").replace(" ", "")
+
+    def run():
+        fn = _fn(ex, rel, func)
+        if fn is None:
+            return None
+        hits = []
+        for n in ast.walk(fn):
+            if (isinstance(n, ast.Call) and isinstance(n.func, ast.Attribute) and n.func.attr in ("subtract_", "sub_", "add_")
+                    and ex.norm(n.func.value) == R and len(n.args) == 1 and isinstance(n.args[0], ast.Constant)
+                    and isinstance(n.args[0].value, int)):
+                k = n.args[0].value if n.func.attr != "add_" else -n.args[0].value
+                hits.append(str(k) if k >= 0 else f"({k})")
+        return hits[0] if len(hits) == 1 else None
+
+    return run
+
+
+_register_round1 = register
+
+
+def register(ex):
+    import ast
+
+    _register_round1(ex)
+    ex.probe("fjspJobIsDiv", "Bool", "true",
+             "fjsp/env.py:_translate_action  `selected_job = td['action'] // self.num_mas` (true) / `%` (false)",
+             binop_assign_probe(ex, F, "FJSPEnv._translate_action", "selected_job", "td['action']", "self.num_mas",
+                                ast.FloorDiv, ast.Mod))
+    ex.probe("fjspMachineIsMod", "Bool", "true",
+             "fjsp/env.py:_translate_action  `selected_machine = td['action'] % self.num_mas` (true) / `//` (false)",
+             binop_assign_probe(ex, F, "FJSPEnv._translate_action", "selected_machine", "td['action']", "self.num_mas",
+                                ast.Mod, ast.FloorDiv))
+    ex.probe("fjspNextEventIsMin", "Bool", "true",
+             "fjsp/env.py:_transit_to_next_time  `torch.where(busy > time, busy, inf).min(1)` (true) / `.max(1)` (false)",
+             reduction_probe(ex, F, "FJSPEnv._transit_to_next_time", "torch.where(", "min", "max"))
+    ex.probe("fjspRewardIsMax", "Bool", "true",
+             "fjsp/env.py:_get_reward  `-finish_times….max(1)` (true) / `.min(1)` (false)",
+             reduction_probe(ex, F, "FJSPEnv._get_reward", "td['finish_times']", "max", "min"))
+    ex.probe("fjspRewardMasksPadding", "Bool", "true",
+             "fjsp/env.py:_get_reward  `finish_times.masked_fill(td['pad_mask'], -inf)` before the reduction (true) / not (false)",
+             masked_fill_probe(ex, F, "FJSPEnv._get_reward", "td['finish_times']", "td['pad_mask']"))
+    I = "rl4co/envs/scheduling/fjsp/__init__.py"
+    ex.probe("fjspInitFinish", "Int", "9999", "fjsp/__init__.py  `INIT_FINISH = 9999.0` (filler of finish_times)",
+             module_const_probe(ex, I, "INIT_FINISH"))
+    ex.probe("fjspNoOpId", "Int", "(-1)", "fjsp/__init__.py  `NO_OP_ID = -1` (the shifted action that means `wait`)",
+             module_const_probe(ex, I, "NO_OP_ID"))
+    ex.probe("fjspActionShift", "Int", "1", "fjsp/env.py:_step  `td['action'].subtract_(1)`",
+             inplace_shift_probe(ex, F, "FJSPEnv._step", "td['action']"))
